@@ -245,6 +245,25 @@ def run_reuse_case(H1, H2, red, tvar):
     return ('ok' if not viols else 'violation'), viols
 
 
+def run_gold_case(kind):
+    """The initial gold stock stated in the constructor of the gold-standard sectors is an initial condition like any other."""
+    from mc import topo
+    case = {'path': 'gold', 'gov': kind}
+    spec = {'countries': [topo.base_country('AA'), topo.base_country('BB')], 'ext': 'last',
+            'links': [['gift', 'AA', 'BB', True, True]], 'xr': {'AA': 'x2', 'BB': 'xvar'}, 'horizon': 2}
+    spec['countries'][0]['gov'] = kind
+    r = topo.run(spec)
+    if r.stage == 'build' or (r.error is not None and type(r.error).__name__ != 'ConvergenceError'):
+        return 'error', [core.violation('gold:model-fails:' + type(r.error).__name__, str(r.error)[:160], case)]
+    holder = 'AA_GOV' if kind == 'GOLD' else 'AA_CB'
+    ts = r.series
+    viols = []
+    for name in (holder + '__GOLD_OZ', holder + '__LAG_GOLD_OZ'):
+        if name not in ts or ts[name][0] != 10.0:
+            viols.append(core.violation('gold:initial-stock-not-honoured', '%s[0] = %r, stated initial stock 10.0' % (name, ts.get(name, [None])[0]), case))
+    return ('ok' if not viols else 'violation'), viols
+
+
 def units(tier):
     out = [{'kind': 'reuse'}]
     for H in BOUNDS[tier]['horizons']:
@@ -281,6 +300,13 @@ def run_unit(unit, tier):
             res['nontrivial'] += 1
             core.bump(res['outcomes'], 'reuse:' + outcome)
             res['violations'].extend(viols[:2])
+        for kind in ('GOLD', 'GOLDCB'):
+            dig.add(('gold', kind))
+            outcome, viols = run_gold_case(kind)
+            res['evaluations'] += 1
+            res['nontrivial'] += 1
+            core.bump(res['outcomes'], 'gold:' + outcome)
+            res['violations'].extend(viols[:2])
         res['samples'] = [{'history': 'one solver: ParseString(block, MaxTime=H1), SolveEquation, ParseString(other block, MaxTime=H2), SolveEquation'}]
     else:
         H = unit['H']
@@ -303,6 +329,8 @@ def run_unit(unit, tier):
 
 
 def replay(case):
+    if case['path'] == 'gold':
+        return run_gold_case(case['gov'])[1][:1]
     if case['path'] == 'reuse':
         return run_reuse_case(case['H1'], case['H2'], case['reduction'], case['tvar'])[1][:1]
     if case['path'] == 'model':
